@@ -162,7 +162,7 @@ func (v *Verifier) computeSummary(fn *ssa.Function, visiting map[*ssa.Function]b
 		return s
 	}
 	c := &sumCtx{v: v, fn: fn, sum: s, visiting: visiting, cellMemo: map[*ssa.Alloc]origin{}, cellBusy: map[*ssa.Alloc]bool{}, valBusy: map[ssa.Value]bool{}}
-	if fc := v.contracts.forFunc(fn); fc != nil {
+	if fc := v.contracts.forFuncIn(shortPkg(fnPkg(fn).Path()), fn); fc != nil {
 		for _, ga := range fc.GhostEntry {
 			c.ghostTargets([]*Expr{ga.LHS})
 		}
@@ -235,6 +235,14 @@ func (c *sumCtx) ghostTargets(es []*Expr) {
 			}
 		}
 	}
+}
+
+// scope: the package whose assumed contracts apply inside the function being summarised.
+func (c *sumCtx) scope() string {
+	if p := fnPkg(c.fn); p != nil {
+		return shortPkg(p.Path())
+	}
+	return curScope
 }
 
 func (c *sumCtx) markAnyGhost() {
@@ -366,7 +374,7 @@ func (c *sumCtx) call(t ssa.CallInstruction) {
 	if callee == nil {
 		if cc.IsInvoke() {
 			key := typeName(cc.Value.Type()) + "." + cc.Method.Name()
-			if fc := v.contracts.get(key); fc != nil {
+			if fc := v.contracts.getIn(c.scope(), key); fc != nil {
 				c.contractGhosts(fc)
 			}
 		} else {
@@ -391,7 +399,7 @@ func (c *sumCtx) call(t ssa.CallInstruction) {
 		}
 		return
 	}
-	fc := v.contracts.forFunc(callee)
+	fc := v.contracts.forFuncIn(c.scope(), callee)
 	if fc != nil && hasModifies(fc) {
 		c.contractGhosts(fc)
 	}
@@ -572,7 +580,7 @@ func (c *sumCtx) callResult(call *ssa.Call, idx int) origin {
 			}
 		}
 	}
-	if fc := c.v.contracts.forFunc(callee); fc != nil && contractSaysFresh(fc, callee, idx) {
+	if fc := c.v.contracts.forFuncIn(c.scope(), callee); fc != nil && contractSaysFresh(fc, callee, idx) {
 		return origin{kind: oFresh}
 	}
 	if callee.Blocks == nil {
@@ -676,6 +684,19 @@ func (v *Verifier) havocBySummary(s *State, fn *ssa.Function, prefix string, wit
 		// package; those of other packages only through contracts that name them (or closures handed over, which are
 		// accounted for at the call site)
 		if sum.ghosts[g] || (sum.anyGhost && v.contracts.ghostInScope(g, shortPkg(fnPkg(fn).Path()))) {
+			if gv := s.ghost[g]; isMap(gv.T) {
+				// a ghost map keeps its identity; its contents are unknown
+				ms := map[string]Sort{}
+				addMapKeys(ms, gv.T)
+				s.bumpWM()
+				for _, k := range sortedKeys(ms) {
+					h := s.heapArr(k, ms[k])
+					_, inner, _ := arrayParts(ms[k])
+					s.heap[k] = Store(h, gv.term(), Fresh("Hg!"+g, inner))
+				}
+				v.assumeMapValuesAllocated(s, gv)
+				continue
+			}
 			s.ghost[g] = freshValue("Hg!"+g, s.ghost[g].T)
 			s.assumeAllocated(s.ghost[g])
 		}
@@ -684,7 +705,7 @@ func (v *Verifier) havocBySummary(s *State, fn *ssa.Function, prefix string, wit
 		return
 	}
 	if os.Getenv("GOVC_DEBUG") == "summary" {
-		fmt.Fprintf(os.Stderr, "DEBUG summary %s: always=%v params=%v free=%v full=%d\n", funcRef(fn), sortedKeys(sum.always), sum.byParam, sum.byFree, len(sum.full))
+		fmt.Fprintf(os.Stderr, "DEBUG summary %s: always=%v params=%v free=%v full=%d ghosts=%v any=%v\n", funcRef(fn), sortedKeys(sum.always), sum.byParam, sum.byFree, len(sum.full), sum.ghosts, sum.anyGhost)
 	}
 	wmCall := s.wm
 	s.bumpWM()
